@@ -665,8 +665,10 @@ static void runSim(const SimCase& c, Ctx& ctx)
     s.sd = std::sqrt((Cm(a, iv, a, iv) * Cm(bb, jv, bb, jv) + s.exp * s.exp) / R);
     return s;
   };
+  Stat worst = {0, 0, 1, 1};
   auto judge = [&](const Stat& s) { // 0 ok, 1 fails
     double dev = std::fabs(s.est - s.exp);
+    if (dev / s.sd > maxz) worst = s;
     maxz = std::max(maxz, dev / s.sd);
     if (dev > 6. * s.sd) neededB = true;
     return dev > 6. * s.sd + b * s.scale;
@@ -774,6 +776,8 @@ static void runSim(const SimCase& c, Ctx& ctx)
   for (auto& s : c.st) h.add(s.type).addq(s.param).addq(s.ratio.size() > 1 ? s.ratio[1] : 1.).add((int)s.angles.size());
   h.add(c.seed);
   ctx.sig = h.h;
+  if (neededB || getenv("VERIF_C14_DIAG"))
+    ctx.label(fmt("worst-stat-rel-dev:%.0f%%", 100. * std::fabs(worst.est - worst.exp) / worst.scale));
   if (getenv("VERIF_TIMING"))
     diag(fmt("T %.2fs %s ndim=%d nvar=%d nst=%d P=%d R=%d nb=%d maxz=%.2f", (double)(clock() - t0) / CLOCKS_PER_SEC, tag.c_str(), ndim, nvar, (int)c.st.size(), np, R, c.nb, maxz));
 }
@@ -810,12 +814,12 @@ static SimCase genTb()
   if (G::pct(25)) c.st.push_back(genNugget(c.ndim, c.nvar));
   if (G::pct(50))
     for (int v = 0; v < c.nvar; v++) c.means.push_back(G::r(-12, 12, 4));
-  int K = c.grid ? 3 : (c.ndim == 3 ? 4 : 6);
+  int K = c.grid ? 3 : (c.ndim == 3 ? 4 : 5);
   c.anchors = genAnchors(c.ndim, K, (c.grid ? 1.0 : 3.0) * c.rmax(), heavy ? 0. : G::pick<double>({0., 0., 5000.}));
   c.cpr = c.ndim == 3 ? 2 : G::i(3, 4);
   if (c.grid && c.ndim >= 2 && G::pct(30)) c.gangle = G::r(1, 89, 1);
-  c.nb = G::i(30, 80);
-  genEnsemble(c, 250, 4, 16);
+  c.nb = G::i(30, 60);
+  genEnsemble(c, 250, 4, 12);
   return c;
 }
 static SimCase genFft()
@@ -1303,6 +1307,7 @@ static void runLaw(const LawCase& c, Ctx& ctx)
     return;
   }
   ctx.label(fmt("maxz:%d", std::min(9, (int)std::floor(maxz))));
+  if (maxz >= 5.) ctx.label("near-threshold:" + tag);
   ctx.nontrivial(true);
   ctx.sig = Hash().add(c.law).add(c.style).addq(c.p1).addq(c.p2).add(c.n).add(c.seed).h;
 }
